@@ -6,6 +6,9 @@ ALL = ["C%02d" % i for i in range(1, 20)]
 
 # id -> (level category, technique, level text, level note, design ref)
 CHECKS = {
+ "C03": ("exploration", "process monitor over structure-aware hostile inputs: child-process exit status, escaped panics, CPU-time budget with isolated re-run, recovered-panic hook",
+         "About 4 300 (quick) / 85 000 (thorough) inputs derived from valid seed streams of every transform and entropy codec through the independent container code - header fields with the header check recomputed, forged length prefixes / widths, mode byte, skip flags, stored length, codec headers (incl. every BWT primary index of > 4 MiB blocks), payload damage, truncation, duplicated / dropped / swapped blocks, oversized copy blocks under a small declared size, garbage - are decoded in child processes with jobs 1..8. Oracle: the child survives, no panic escapes Read, and the CPU budget (60 s, isolated re-run 240 s) is not exceeded twice. The recover hook counts the decoder's swallowed panics per site (about 1 000 per quick run) as evidence that the defences were exercised.",
+         "'Bounded by the declared block sizes' is restated as a CPU budget; gigabyte-sized forged declarations run only in the serial thorough batch; allocations up to declared sizes are legitimate.", "DESIGN.md §3 C03"),
  "C10": ("exploration", "runtime monitor: differential oracle between two code histories linked into one binary (vendored reference snapshot vs current tree) + golden corpus written once by the reference encoder",
          "kanziref/v2 (snapshot of the pinned commit, under /verif/ref) and the current tree are linked into the same binary. 89 corpus streams written by the reference encoder (every transform, every entropy codec, checksum 0/32/64, hint, small blocks, headerless, > 4 MiB BWT, long runs / long distances) must decode with the current Reader (jobs 1 and 3) to their recorded SHA-256; 600 (quick) / 20 000 (thorough) generated (config, data) pairs on which the reference round-trips must satisfy current.Read(reference.Write(x)) == x; XXHash32/64 are compared on 3 000 random buffers.",
          "Only bitstream version 6 as written by the snapshot; pairs on which the reference itself fails are skipped (counted in the evidence).", "DESIGN.md §3 C10"),
